@@ -195,6 +195,22 @@ Verdicts == ndJsonSerialize(IOEnv.OUT,
 ASSUME PrintT(Counts)
 ASSUME Verdicts
 
+\* function_less_than as an ORDER (std::stable_sort needs a strict weak ordering): checked over the signatures of both catalogues.
+\* Reported, not asserted: overloads of different arity never compete for a call, and the dispatch laws above are what the property needs.
+AllSigs == {USig(n) : n \in UNames} \cup {BSigTable[k] : k \in DOMAIN BSigTable}
+Incomp(a, b) == ~LessFrom(a, b, 1) /\ ~LessFrom(b, a, 1)
+OrderFacts == <<"order",
+   "irreflexive", \A a \in AllSigs : ~LessFrom(a, a, 1),
+   "asymmetric", \A a, b \in AllSigs : LessFrom(a, b, 1) => ~LessFrom(b, a, 1),
+   "transitive", \A a, b, c \in AllSigs : (LessFrom(a, b, 1) /\ LessFrom(b, c, 1)) => LessFrom(a, c, 1),
+   "incomparability transitive within one arity", \A a, b, c \in AllSigs : (Len(a) = Len(b) /\ Len(b) = Len(c) /\ Incomp(a, b) /\ Incomp(b, c)) => Incomp(a, c),
+   "incomparability transitive across arities", \A a, b, c \in AllSigs : (Incomp(a, b) /\ Incomp(b, c)) => Incomp(a, c)>>
+NonTransitive == {<<a, b, c>> \in AllSigs \X AllSigs \X AllSigs : LessFrom(a, b, 1) /\ LessFrom(b, c, 1) /\ ~LessFrom(a, c, 1)}
+Show3(t) == <<[i \in 1..Len(t[1]) |-> <<t[1][i].bare, t[1][i].const>>], [i \in 1..Len(t[2]) |-> <<t[2][i].bare, t[2][i].const>>], [i \in 1..Len(t[3]) |-> <<t[3][i].bare, t[3][i].const>>]>>
+ASSUME PrintT(OrderFacts)
+ASSUME PrintT(<<"nontransitive", Cardinality(NonTransitive), LET same == {t \in NonTransitive : Len(t[1]) = Len(t[2]) /\ Len(t[2]) = Len(t[3])} IN
+                 <<"same arity", Cardinality(same), IF same = {} THEN (IF NonTransitive = {} THEN <<>> ELSE Show3(CHOOSE t \in NonTransitive : TRUE)) ELSE Show3(CHOOSE t \in same : TRUE)>> >>)
+
 \* the transcription satisfies the property on every row it could produce (independent of the recording): for every catalogue pair
 \* and argument, what Dispatch selects is Allowed and exact when an exact overload exists
 SpecSound == \A f \in UNames : \A s \in UNames \cup {""} : \A an \in DOMAIN Args :
